@@ -39,6 +39,12 @@ package vgirpc
 //@        (h.maxDecompressedBodySize == 0 && limit > 0 ? min(limit * 16, maxI64()) : (h.maxDecompressedBodySize < 0 ? 0 : h.maxDecompressedBodySize)))
 //@   # (repaired defect: a negative setting, documented as "no cap", derived 16 x the wire cap like the unset 0)
 //@   at call decompressBounded assert [rawbody] arg1 == body && (arg0 == "zstd" || arg0 == "gzip")
+//@   # (repaired defect: every decoded-size overrun was answered 413 "max_request_bytes=N") the 413 error is
+//@   # made only on a path where the advertised cap applies and is the bound the body was held to
+//@   pathvar heldto int64
+//@   at call decompressBounded setflag heldto arg2
+//@   at store requestBodyTooLargeError.Limit assert [advertisedonly] requestCapApplied && value == limit && (heldto == limit || len(body) > limit)
+//@   at call errors.As assert [hint_decodeverdict] arg0 == derr
 //@   ensures [local_identity] result1 == nil && (encoding == "" || encoding == "identity") ==> result0 == body && (limit <= 0 || len(body) <= limit)
 //@   ensures [local_toolarge] err == nil && limit > 0 && len(body) > limit ==> result1 != nil &&
 //@       (requestCapApplied ==> typeof(result1) == *requestBodyTooLargeError) && (!requestCapApplied ==> typeof(result1) == *RpcError)
@@ -48,6 +54,9 @@ package vgirpc
 //
 //@ func decompressBounded
 //@   property C18
+//@   # the decoder names no cap of the server's: its refusal is the neutral error, carrying the bound it was given
+//@   at store decodedBodyTooLargeError.Limit assert [neutral] value == maxOutput && maxOutput > 0
+//@   at store requestBodyTooLargeError.Limit assert [hint_notthedecoders] false
 //@   at call io.LimitReader assert [readatmost] arg1 == min(maxOutput + 1, maxI64())
 //@   # what is read to the end is a decoder over the WHOLE raw body, in its whole-input configuration,
 //@   # and what is returned is what that read produced
